@@ -309,6 +309,8 @@ def run_property(prop_name, tier):
     buckets = collections.OrderedDict()
     for x in sorted(unattributed, key=lambda y: json_size(y['case'])):
         buckets.setdefault(x['bucket'], x)
+    shrink_t0 = time.time()
+    shrink_total = 45 if tier == 'quick' else 300
     for b, x in buckets.items():
         again = prop.run_case(x['case'])
         again = [y for y in (again or []) if not any(findings_mod.matches(prop, f, y) for f in active)]
@@ -318,8 +320,8 @@ def run_property(prop_name, tier):
             write_evidence(prop, tier, merged, time.time() - t0, 0, notes + ['unreproducible failure: ' + b])
             return 2
         y = next((z for z in again if z['bucket'] == b), again[0])
-        if os.environ.get('VF_NO_SHRINK') != '1':
-            y = shrink(prop, y, budget_s=20 if tier == 'quick' else 90)
+        if os.environ.get('VF_NO_SHRINK') != '1' and time.time() - shrink_t0 < shrink_total:
+            y = shrink(prop, y, budget_s=min(15 if tier == 'quick' else 60, shrink_total - (time.time() - shrink_t0)))
         violations.append(y)
 
     if hasattr(prop, 'evidence_notes'):
